@@ -346,7 +346,7 @@ impl<A, D: Dimension> ArrayN<A, D> {
 }
 
 impl<A, D: Dimension> ArrayN<A, D> {
-//@extract file=src/summary_statistics/means.rs impl=SummaryStatisticsExt:ArrayBase fn=central_moments id=central_moments tags=C07,C17 body_tags=C07
+//@extract file=src/summary_statistics/means.rs impl=SummaryStatisticsExt:ArrayBase fn=central_moments id=central_moments tags=C07,C17,C18 body_tags=C07
 //@sig
     fn central_moments(&self, order: u16) -> (r: Result<Vec<A>, MinMaxError>)
     where
@@ -359,7 +359,7 @@ impl<A, D: Dimension> ArrayN<A, D> {
             self@.len() > 0 ==> r is Ok, // [C07,C17]
             self@.len() > 0 ==> r->Ok_0@.len() == order as int + 1, // [C07]
             self@.len() > 0 ==> r->Ok_0@[0] == A::one_spec() && (order >= 1 ==> r->Ok_0@[1] == A::zero_spec()), // [C07] exactly one / zero
-            self@.len() > 0 ==> forall|p: int| 0 <= p <= order as int ==> (#[trigger] r->Ok_0@[p]).val() == cmoment_def(vals(self@), p as nat), // [C07]
+            self@.len() > 0 ==> forall|p: int| 0 <= p <= order as int ==> (#[trigger] r->Ok_0@[p]).val() == cmoment_def(vals(self@), p as nat), // [C07,C18] the same value central_moment(p) is proved to return
 //@closure 0
 |x: A| -> (y: A) ensures y.val() == x.val() - mean.val()
 //@at entry
@@ -437,7 +437,7 @@ impl<A, D: Dimension> ArrayN<A, D> {
 }
 
 impl<A, D: Dimension> ArrayN<A, D> {
-//@extract file=src/summary_statistics/means.rs impl=SummaryStatisticsExt:ArrayBase fn=weighted_var_axis id=weighted_var_axis tags=C07,C17 body_tags=C07
+//@extract file=src/summary_statistics/means.rs impl=SummaryStatisticsExt:ArrayBase fn=weighted_var_axis id=weighted_var_axis tags=C07,C17,C18 body_tags=C07
 //@sig
     fn weighted_var_axis(&self, axis: Axis, weights: &ArrayN<A, Ix1>, ddof: A) -> (r: Result<ArrayN<A, D::Smaller>, MultiInputError>)
     where
@@ -457,7 +457,7 @@ impl<A, D: Dimension> ArrayN<A, D> {
             self@.len() > 0 && self.shape_spec()[axis.0 as int] == weights@.len() ==> r->Ok_0@.len() == self.lanes(axis.0 as int).len(), // [C07]
             ({ let ws = vals(weights@); let wt = wpsum(ws, ws, 0, ws.len() as int);
                self@.len() > 0 && self.shape_spec()[axis.0 as int] == weights@.len() && wt > 0real && wt - ddof.val() != 0real ==>
-                   forall|j: int| 0 <= j < self.lanes(axis.0 as int).len() ==> (#[trigger] r->Ok_0@[j]).val() == wvar_def(vals(self.lanes(axis.0 as int)[j]), ws, ddof.val()) }), // [C07]
+                   forall|j: int| 0 <= j < self.lanes(axis.0 as int).len() ==> (#[trigger] r->Ok_0@[j]).val() == wvar_def(vals(self.lanes(axis.0 as int)[j]), ws, ddof.val()) }), // [C07,C18] the value weighted_var is proved to return on that lane
 //@rename_call view verif_view
 //@closure 0
 |lane: ArrayN<A, Ix1>| -> (v: A) requires lane@.len() == weights@.len() ensures ({ let xs = vals(lane@); let ws = vals(weights@); let wt = wpsum(xs, ws, 0, xs.len() as int); wt > 0real && wt - ddof.val() != 0real ==> v.val() == wvar_def(xs, ws, ddof.val()) })
